@@ -52,7 +52,7 @@ RULE = ("conversion: random lists of 1-7 declarations (int / float / mixed tuple
         "x path x surrogate family x seed, 4000+ draws per dimension. non-trivial = at least one accepted declaration (conversion) / at least one dimension "
         "with a support or distribution verdict (sampling)")
 
-F_CHECK, F_CONVDECL, F_OKCONV, F_OKSUPPORT, F_SPEC, F_CHI2, F_CONVSPACE, F_VALUES, F_QNORM, F_QCATNORM = range(1001, 1011)
+F_CHECK, F_CONVDECL, F_OKCONV, F_OKSUPPORT, F_SPEC, F_CHI2, F_CONVSPACE, F_VALUES, F_QNORM, F_QCATNORM, F_INACTIVE = range(1001, 1012)
 CONV_CLAUSE = {0: "conv_unknown", 1: "names", 2: "number_of_dimensions", 3: "name_or_order", 4: "dimension_kind", 5: "bounds", 6: "log_flag", 7: "categories",
                8: "declaration_not_accepted"}
 SUPPORT_CLAUSE = {1: "support_outside_or_wrong_type", 2: "support_value_never_drawn", 3: "lower_end_not_reached", 4: "upper_end_not_reached", 5: "no_draws"}
@@ -343,7 +343,7 @@ def spec_desc(s):
 
 
 # ------------------------------------------------------------------------------------------------------------------ conversion stream
-def declare(decls, toks):
+def declare(decls, toks, spoil=False):
     """HpProblem.add_hyperparameter for every declaration; returns (problem, accepted indices, errors, first correspondence
     disagreement or None).  A disagreement does not stop the run: the ORACLES are evaluated first (against the declarations),
     the disagreement is reported only when they find nothing."""
@@ -367,6 +367,9 @@ def declare(decls, toks):
                 bad = dict(kind="corr", clause="check_rejected_but_model_accepts", detail=dict(decl=d, error=repr(e)[:200], model=want))
             continue
         accepted.append(i)
+        if spoil and isinstance(val, list):  # the caller goes on using (and editing) the list it passed in
+            val.reverse()
+            val.append("spoiled")
         if not want:
             bad = bad or dict(kind="corr", clause="check_accepted_but_model_rejects", detail=dict(decl=d, hp=repr(hp)))
             continue
@@ -384,25 +387,14 @@ def _norm(x):
     return x
 
 
-def check_conversion(case):
+def judge_conversion(p, decls, accepted, sur, toks, res, bad):
+    """One call of convert_to_skopt_space judged against the declarations.  Returns a failure dict, or None."""
     from deephyper.hpo._problem import convert_to_skopt_space
 
-    decls, sur = case["decls"], case["surrogate"]
-    toks = Tokens()
     m = model()
-    res = dict(ok=True, kind="oracle", clause="", nontrivial=False, sig={"surrogate": sur}, desc=["surrogate=%s" % sur, "ndecl=%d" % len(decls)])
-    for _, d in decls:
-        res["desc"].append("decl=" + (d["k"] if d["k"] != "obj" else "obj_" + d["o"]["cls"]))
-    p, accepted, errors, bad = declare(decls, toks)
-    res["desc"].append("accepted=%d" % len(accepted))
-    for e in errors.values():
-        res["desc"].append("rejected:" + e)
     names = [decls[i][0] for i in accepted]
     order = list(p.hyperparameter_names)
     res["desc"].append("order=" + ("declaration" if order == names else "sorted" if order == sorted(names) else "other"))
-    if not accepted:
-        return dict(res, ok=False, nontrivial=True, **bad) if bad else res
-    res["nontrivial"] = True
     hps = [(names.index(n) if n in names else -1, enc_real_hp(p.space[n], toks)) for n in order]
     want = m.call(F_CONVSPACE, [family_code(sur), [[i, h] for i, h in hps]])
     try:
@@ -413,26 +405,96 @@ def check_conversion(case):
         if want:
             return dict(res, ok=False, kind="corr", clause="convert_raises_but_model_converts", detail=repr(e)[:200])
         res["desc"].append("convert:TypeError")
-        return res
+        return None
     dims = [enc_dim(dm, names, toks) for dm in sp.dimensions]
-    # ORACLE: the dimensions against the DECLARATIONS (those with a reading; an accepted declaration the model has no reading
-    # for is a correspondence matter, not a failure of the property)
-    enc_decls = [[j, enc_decl(decls[i][1], toks)] for j, i in enumerate(accepted)]
+    # ORACLE: the dimensions against the DECLARATIONS.  Accepted declarations the model has no reading for are a correspondence
+    # matter; they are taken out (with their dimension) and everything else is still judged.
     readable = [j for j, i in enumerate(accepted) if m.call(F_SPEC, enc_decl(decls[i][1], toks))]
-    if len(readable) == len(accepted):
-        order_tok = [names.index(n) if n in names else -1 for n in order]
-        ok, clause, idx = m.call(F_OKCONV, [enc_decls, order_tok, dims])
-        if not ok:
-            where = order[idx] if idx < len(order) else None
-            cl = "conv:" + CONV_CLAUSE.get(clause, str(clause))
-            return dict(res, ok=False, clause=cl, sig={"clause": cl},
-                        detail=dict(order=order, dimension=where, dims=[repr(d) for d in sp.dimensions], declared={n: decls[accepted[names.index(n)]][1] for n in order if n in names}))
+    keep = set(readable)
+    enc_decls = [[j, enc_decl(decls[accepted[j]][1], toks)] for j in readable]
+    order_tok = [names.index(n) if n in names else -1 for n in order]
+    if len(dims) == len(order_tok):
+        pairs = [(t, dm) for t, dm in zip(order_tok, dims) if t in keep or t == -1]
+        o2, d2 = [t for t, _ in pairs], [dm for _, dm in pairs]
+    else:
+        o2, d2 = [t for t in order_tok if t in keep or t == -1], dims
+    ok, clause, idx = m.call(F_OKCONV, [enc_decls, o2, d2])
+    if not ok:
+        cl = "conv:" + CONV_CLAUSE.get(clause, str(clause))
+        return dict(res, ok=False, clause=cl, sig={"clause": cl},
+                    detail=dict(order=order, position=idx, dims=[repr(d) for d in sp.dimensions], declared={n: decls[accepted[names.index(n)]][1] for n in order if n in names}))
     if bad:
         return dict(res, ok=False, **bad)
     if (sp.config_space is not None) != (len(p.space.conditions) > 0 or len(p.space.forbidden_clauses) > 0):
         return dict(res, ok=False, kind="corr", clause="config_space_path_flag", detail=None)
     if not want or _norm(want[0]) != _norm(dims):
         return dict(res, ok=False, kind="corr", clause="dims_model", detail=dict(model=want, impl=dims, dims=[repr(d) for d in sp.dimensions]))
+    return None
+
+
+def check_conversion(case):
+    import ConfigSpace as cs
+
+    decls, sur = [list(x) for x in case["decls"]], case["surrogate"]
+    toks = Tokens()
+    res = dict(ok=True, kind="oracle", clause="", nontrivial=False, sig={"surrogate": sur}, desc=["surrogate=%s" % sur, "ndecl=%d" % len(decls)])
+    for _, d in decls:
+        res["desc"].append("decl=" + (d["k"] if d["k"] != "obj" else "obj_" + d["o"]["cls"]))
+    p, accepted, errors, bad = declare(decls, toks, spoil=bool(case.get("mutate")))
+    res["desc"].append("accepted=%d" % len(accepted))
+    for e in errors.values():
+        res["desc"].append("rejected:" + e)
+    if not accepted:
+        return dict(res, ok=False, nontrivial=True, **bad) if bad else res
+    res["nontrivial"] = True
+    if case.get("entry"):
+        res["desc"].append("entry=" + case["entry"])
+    p = rebuild(p, case)
+    # conditions are added AFTER the hyperparameters (ConfigSpace may then re-order its container)
+    ncond, objs = 0, []
+    for child, parent in case.get("conditions", []):
+        try:
+            hp_c, hp_p = p.space[child], p.space[parent]
+            value = hp_p.choices[0] if hasattr(hp_p, "choices") else hp_p.sequence[0] if hasattr(hp_p, "sequence") else hp_p.lower if hasattr(hp_p, "lower") and isinstance(hp_p.lower, int) else None
+            if value is None:
+                continue
+            objs.append(cs.EqualsCondition(hp_c, hp_p, value))
+        except Exception:
+            continue
+    try:
+        if objs and case.get("conditions_plural"):
+            p.add_conditions(objs)
+            ncond = len(objs)
+        else:
+            for c in objs:
+                try:
+                    p.add_condition(c)
+                    ncond += 1
+                except Exception:
+                    pass
+    except Exception:
+        pass
+    res["desc"].append("conditions=%d" % ncond)
+    f = judge_conversion(p, decls, accepted, sur, toks, res, bad)
+    if f:
+        return f
+    # the same problem object converted again: for another surrogate, and after one more hyperparameter has been declared
+    for sur2 in case.get("again", []):
+        f = judge_conversion(p, decls, accepted, sur2, toks, res, bad)
+        if f:
+            return dict(f, clause=f["clause"] + "@second_conversion", sig=dict(f.get("sig", {}), clause=f["clause"] + "@second_conversion"))
+    if case.get("extra"):
+        nm, d = case["extra"]
+        if nm not in [x[0] for x in decls]:
+            try:
+                p.add_hyperparameter(build_value(d, nm), nm)
+            except Exception:
+                return res
+            decls.append([nm, d])
+            accepted.append(len(decls) - 1)
+            f = judge_conversion(p, decls, accepted, sur, toks, res, bad)
+            if f:
+                return dict(f, clause=f["clause"] + "@after_adding", sig=dict(f.get("sig", {}), clause=f["clause"] + "@after_adding"))
     return res
 
 
@@ -441,30 +503,96 @@ def _noop_run(job):
     return 0.0
 
 
+def chunk_sizes(case):
+    """how the n draws are asked for: at once, or by MANY calls on the one object (sizes 1, 3, 1, 64, 500, ... - single
+    draws take other branches than batches)"""
+    n = case["n"]
+    if not case.get("chunks"):
+        return [n]
+    if case["chunks"] == "ones":
+        return [1] * n
+    out, pat, i = [], [1, 3, 1, 64, 500, 2, 1, 250], 0
+    while sum(out) < n:
+        out.append(min(pat[i % len(pat)], n - sum(out)))
+        i += 1
+    return out
+
+
+def _spoil(obj):
+    """the caller edits what it was handed (after the harness has copied the values out)"""
+    if isinstance(obj, dict):
+        for k in list(obj):
+            obj[k] = "spoiled"
+    elif isinstance(obj, list):
+        for i in range(len(obj)):
+            if isinstance(obj[i], (list, dict)):
+                _spoil(obj[i])
+            else:
+                obj[i] = "spoiled"
+
+
 def draw(case, problem):
     """-> (list of rows as dicts name -> value, effective transforms or None)"""
+    import copy
     import numpy as np
     from deephyper.hpo._problem import convert_to_skopt_space
 
     path, sur, seed, n = case["path"], case["surrogate"], case["seed"], case["n"]
+    sizes = chunk_sizes(case)
+    spoil = bool(case.get("mutate_returned"))
     names = list(problem.hyperparameter_names)
-    if path in ("space_rvs", "space_rvs_cs"):
+    if path in ("space_rvs", "space_rvs_cs", "dim_rvs"):
         sp = convert_to_skopt_space(problem.space, surrogate_model=sur)
-        if (sp.config_space is not None) != (path == "space_rvs_cs"):
+        if path != "dim_rvs" and (sp.config_space is not None) != (path == "space_rvs_cs"):
             raise RuntimeError("path %s but config_space=%r" % (path, sp.config_space is not None))
+        if case.get("normalize"):
+            sp.set_transformer("normalize")
         if sp.config_space is not None:
             sp.config_space.seed(seed)
-        X = sp.rvs(n_samples=n, random_state=np.random.RandomState(seed) if case.get("rs_object") else seed)
+        if case.get("pickle"):
+            sp = copy.deepcopy(sp)  # (pickle refuses a Space with an integer-valued ordinal: Identity(type_func=lambda ...))
+        rs = np.random.RandomState(seed) if (case.get("rs_object") or len(sizes) > 1 or path == "dim_rvs") else seed
+        kw = dict(n_jobs=case["n_jobs"]) if case.get("n_jobs") else {}
+        if path == "dim_rvs":  # the per-dimension entry point, every arity: n_samples None / 1 / k
+            cols = []
+            for dm in sp.dimensions:
+                col = []
+                for ci, c in enumerate(sizes):
+                    arg = None if (c == 1 and ci % 4 == 0 and type(dm).__name__ == "Categorical") else c
+                    r = dm.rvs(n_samples=arg, random_state=rs)
+                    vals = list(r) if isinstance(r, (list, tuple, np.ndarray)) else [r]
+                    col.extend(canon(v) for v in vals)
+                    if spoil and isinstance(r, list):
+                        _spoil(r)
+                cols.append(col)
+            if len({len(c) for c in cols}) != 1:
+                raise RuntimeError("dimension rvs returned %r values for sizes summing to %d" % ([len(c) for c in cols], n))
+            return [dict(zip(names, x)) for x in zip(*cols)], [d.transform_ for d in sp.dimensions]
+        X = []
+        for ci, c in enumerate(sizes):
+            part = sp.rvs(n_samples=c, random_state=rs, **kw)
+            X.extend([canon(v) for v in x] for x in part)
+            if spoil:
+                _spoil(part)
+            if case.get("pickle") and ci == 2:
+                sp = copy.deepcopy(sp)
         return [dict(zip(names, x)) for x in X], [d.transform_ for d in sp.dimensions]
     if path == "cbo_ask":
         import tempfile
         from deephyper.hpo import CBO
 
         with tempfile.TemporaryDirectory(prefix="vp_c10_") as d:
-            s = CBO(problem, _noop_run, surrogate_model=sur, random_state=seed, n_points=8 if case.get("one_by_one") else n, n_initial_points=n,
-                    filter_duplicated=bool(case.get("filter_duplicated", False)), log_dir=d, verbose=0)
+            npts = 8 if case.get("one_by_one") else max(sizes)
+            kw = dict(n_jobs=case["n_jobs"]) if case.get("n_jobs") else {}
+            s = CBO(copy.deepcopy(problem) if case.get("pickle") else problem, _noop_run, surrogate_model=sur, random_state=seed, n_points=npts, n_initial_points=n,
+                    filter_duplicated=bool(case.get("filter_duplicated", False)), log_dir=d, verbose=0, **kw)
             s._setup_optimizer()
-            X = s.ask(n) if not case.get("one_by_one") else [s.ask(1)[0] for _ in range(n)]
+            X = []
+            for c in ([1] * n if case.get("one_by_one") else sizes):
+                part = s.ask(c)
+                X.extend({k: canon(v) for k, v in x.items()} for x in part)
+                if spoil:
+                    _spoil(part)
             trs = [dm.transform_ for dm in s._opt.space.dimensions]
         return X, trs
     if path == "random_search":
@@ -472,20 +600,44 @@ def draw(case, problem):
         from deephyper.hpo import RandomSearch
 
         with tempfile.TemporaryDirectory(prefix="vp_c10_") as d:
-            s = RandomSearch(problem, _noop_run, random_state=seed, log_dir=d, verbose=0)
-            X = s.ask(n) if not case.get("one_by_one") else [s.ask(1)[0] for _ in range(n)]
+            s = RandomSearch(copy.deepcopy(problem) if case.get("pickle") else problem, _noop_run, random_state=seed, log_dir=d, verbose=0)
+            X = []
+            for c in ([1] * n if case.get("one_by_one") else sizes):
+                part = s.ask(c)
+                X.extend({k: canon(v) for k, v in x.items()} for x in part)
+                if spoil:
+                    _spoil(part)
         return X, None
     raise ValueError(path)
+
+
+def rebuild(problem, case):
+    """the same problem through another entry point: HpProblem(config_space=...) or add_hyperparameters([...])"""
+    from deephyper.hpo import HpProblem
+
+    entry = case.get("entry", "add")
+    if entry == "config_space":
+        return HpProblem(config_space=problem.space)
+    if entry == "add_list":
+        q = HpProblem()
+        q.add_hyperparameters([problem.space[n] for n in problem.hyperparameter_names][::-1])
+        return q
+    return problem
 
 
 def add_structure(problem, case):
     """conditions / forbidden clauses of the ConfigSpace path; returns {child: (parent, value)}"""
     import ConfigSpace as cs
 
-    cond = {}
+    cond, objs = {}, []
     for child, parent, value in case.get("conditions", []):
-        problem.add_condition(cs.EqualsCondition(problem.space[child], problem.space[parent], value))
+        objs.append(cs.EqualsCondition(problem.space[child], problem.space[parent], value))
         cond[child] = (parent, value)
+    if objs and case.get("conditions_plural"):
+        problem.add_conditions(objs)
+    else:
+        for c in objs:
+            problem.add_condition(c)
     for name, value in case.get("forbidden", []):
         problem.add_forbidden_clause(cs.ForbiddenEqualsClause(problem.space[name], value))
     return cond
@@ -573,10 +725,18 @@ def check_sampling(case):
     m = model()
     sig = {"path": case["path"]}
     res = dict(ok=True, kind="oracle", clause="", nontrivial=False, sig=dict(sig), desc=["path=" + case["path"], "surrogate=%s" % case["surrogate"]])
-    p, accepted, errors, bad = declare(decls, toks)
+    p, accepted, errors, bad = declare(decls, toks, spoil=bool(case.get("mutate_returned")))
     if len(accepted) != len(decls):
         return dict(res, ok=False, **bad) if bad else dict(res, ok=False, kind="corr", clause="sampling_case_declaration_rejected", detail=errors)
+    p = rebuild(p, case)
     cond = add_structure(p, case)
+    for k in ("entry", "chunks", "mutate_returned", "pickle", "n_jobs", "normalize", "conditions_plural", "one_by_one"):
+        if case.get(k):
+            res["desc"].append("%s=%s" % (k, case[k]))
+    if case.get("conditions"):
+        res["desc"].append("conditions=%d" % len(case["conditions"]))
+    if case.get("forbidden"):
+        res["desc"].append("forbidden")
     specs = {}
     for name, d in decls:
         s = m.call(F_SPEC, enc_decl(d, toks))
@@ -592,17 +752,28 @@ def check_sampling(case):
         return dict(res, ok=False, clause="number_of_draws", detail=dict(want=case["n"], got=len(rows)))
     if any(set(r.keys()) != set(names) for r in rows[:50]) or (rows and list(rows[0].keys()) != names and case["path"] != "random_search"):
         return dict(res, ok=False, clause="draw_keys", detail=dict(names=names, first=list(rows[0].keys())))
+    ucols = []
     for j, name in enumerate(names):
         spec = specs[name]
         col = [canon(r[name]) for r in rows]
         if name in cond:  # conditional child: judged on the rows where it is active; inactive rows carry the lower bound / first category
-            parent, value = cond[name]
-            act = [canon(r[parent]) == value for r in rows]
+            def active(nm, r):  # a child is active when its parent is active and has the value
+                while nm in cond:
+                    par, val = cond[nm]
+                    if not (canon(r[par]) == val and isinstance(canon(r[par]), bool) == isinstance(val, bool)):  # Python ==: 3.0 for a declared 3 on the ConfigSpace path
+                        return False
+                    nm = par
+                return True
+
+            act = [active(name, r) for r in rows]
             inactive = [v for v, a in zip(col, act) if not a]
             col = [v for v, a in zip(col, act) if a]
-            first = spec[1] if spec[0] == 0 else (spec[1][0] / spec[1][1] if spec[0] == 1 else dec_atom(spec[1][0], {v: k for k, v in toks.t.items()}))
-            if any(not _same(v, first) for v in inactive):
-                return dict(res, ok=False, kind="corr", clause="inactive_value", detail=dict(name=name, want=first, got=[v for v in inactive if not _same(v, first)][:3]))
+            if not col:
+                res["desc"].append("no_active_rows")
+                continue
+            first = dec_atom(m.call(F_INACTIVE, spec)[0], {v: k for k, v in toks.t.items()})  # the model's inactive value
+            if any(not _same(v, first) for v in inactive) and not bad:  # reported only when the oracles find nothing
+                bad = dict(kind="corr", clause="inactive_value", detail=dict(name=name, want=first, got=[v for v in inactive if not _same(v, first)][:3]))
         tr = trs[j] if trs is not None else "configspace"
         dsig = dict(sig, dim=spec_desc(spec), transform=str(tr))
         if spec[0] == 2:
@@ -621,6 +792,15 @@ def check_sampling(case):
         # ---- distribution clause: a TEST ----
         if spec[0] == 2 and len(spec[1]) == 1:
             continue
+        if spec[0] == 1 and name not in cond:
+            lo_f, hi_f = spec[1][0] / spec[1][1], spec[2][0] / spec[2][1]
+            if (hi_f - lo_f) > 1e-3 * max(abs(lo_f), abs(hi_f)):
+                # draws of a continuous law do not repeat - neither within one call nor from one call to the next on the same object
+                nd = len(set(col))
+                if nd < 0.99 * len(col):
+                    return dict(res, ok=False, clause="repeated_draws", sig=dict(dsig, clause="repeated_draws"),
+                                detail=dict(name=name, declared=dict(decls)[name], n=len(col), distinct=nd, calls=len(chunk_sizes(case)), decided_by="python (statistical test, level other)"))
+                ucols.append((name, col))
         small, okchi, num, ntot, kk, counts = m.call(F_CHI2, [spec, draws])
         if small:
             res["desc"].append("dist=chi2_exact")
@@ -629,13 +809,34 @@ def check_sampling(case):
                             detail=dict(name=name, declared=dict(decls)[name], n=ntot, cells=kk, chi2=num / ntot, threshold=(kk - 1) + 2 * math.sqrt(21 * (kk - 1)) + 42,
                                         counts=counts, decided_by="extracted ok_chi2_uniform"))
             continue
-        flat = case["path"] in ("space_rvs", "cbo_ask")
+        flat = case["path"] in ("space_rvs", "cbo_ask", "dim_rvs") and not case.get("conditions") and not case.get("forbidden")  # else ConfigSpace samples
         tname, pv, info = dist_test(spec, col, flat)
         if tname:
             res["desc"].append("dist=" + tname)
             if pv is not None and pv < P_THRESHOLD:
                 return dict(res, ok=False, clause=tname, sig=dict(dsig, clause=tname),
                             detail=dict(name=name, declared=dict(decls)[name], n=len(col), p=pv, info=info, decided_by="python/scipy (statistical test, level other)"))
+    # a random design: the dimensions are drawn independently of each other (rank correlation of pairs of real dimensions; TEST)
+    if len(ucols) >= 2 and not case.get("conditions"):
+        from scipy import stats
+
+        for a in range(min(len(ucols), 4)):
+            for b in range(a + 1, min(len(ucols), 4)):
+                rho = float(stats.spearmanr(ucols[a][1], ucols[b][1]).statistic)
+                if abs(rho) * math.sqrt(len(rows)) > 6.5:  # |rho| sqrt(n) ~ N(0,1): p < 1e-10
+                    return dict(res, ok=False, clause="dimensions_correlated", sig=dict(sig, clause="dimensions_correlated"),
+                                detail=dict(a=ucols[a][0], b=ucols[b][0], spearman=rho, n=len(rows), decided_by="python/scipy (statistical test, level other)"))
+        res["desc"].append("dist=independence")
+    # the problem is still what was declared: convert it once more AFTER all the sampling calls and judge the dimensions again
+    from deephyper.hpo._problem import convert_to_skopt_space
+
+    sp2 = convert_to_skopt_space(p.space, surrogate_model=case["surrogate"])
+    dnames = [nm for nm, _ in decls]
+    ok, clause, idx = m.call(F_OKCONV, [[[j, enc_decl(d, toks)] for j, (_, d) in enumerate(decls)], [dnames.index(x) if x in dnames else -1 for x in p.hyperparameter_names],
+                                        [enc_dim(dm, dnames, toks) for dm in sp2.dimensions]])
+    if not ok:
+        cl = "conv_after_sampling:" + CONV_CLAUSE.get(clause, str(clause))
+        return dict(res, ok=False, clause=cl, sig=dict(sig, clause=cl), detail=dict(order=list(p.hyperparameter_names), dims=[repr(d) for d in sp2.dimensions]))
     if bad:
         return dict(res, ok=False, **bad)
     return res
@@ -688,6 +889,102 @@ def gen_quantile(count):
                 cats = ["c%d" % j for j in range(k)]
                 rng.shuffle(cats)
                 yield dict(kind="cat", cats=cats, u=[num, den])
+    return gen
+
+
+# ------------------------------------------------------------------------------------------------------------------ extreme quantile arguments
+def make_stub(mode):
+    """A RandomState whose uniform draws are all 0.0 (mode 'min') or all the largest float below 1.0 (mode 'max') and whose
+    integer draws are the smallest / largest legal value: the two ends of the model's quantile arguments (u = 0, u -> 1,
+    k = 0, k = hi - lo), fed through the public Dimension.rvs."""
+    import numpy as np
+
+    class Stub(np.random.RandomState):
+        def __init__(self):
+            super().__init__(0)
+            self.calls = []
+
+        def _u(self):
+            return 0.0 if mode == "min" else float(np.nextafter(1.0, 0.0))
+
+        def uniform(self, low=0.0, high=1.0, size=None):
+            self.calls.append("uniform")
+            v = low + (high - low) * self._u()
+            return np.full(size, v) if size is not None else v
+
+        def random_sample(self, size=None):
+            self.calls.append("random_sample")
+            return np.full(size, self._u()) if size is not None else self._u()
+
+        random = random_sample
+        rand = lambda self, *shape: self.random_sample(shape if shape else None)
+
+        def randint(self, low, high=None, size=None, dtype=int):
+            self.calls.append("randint")
+            if high is None:
+                low, high = 0, low
+            v = low if mode == "min" else high - 1
+            return np.full(size, v, dtype=dtype) if size is not None else v
+
+    return Stub()
+
+
+def check_extremes(case):
+    """Deterministic version of 'both ends occur, nothing outside': the samplers at the extreme quantile arguments."""
+    import numpy as np
+    from deephyper.hpo._problem import convert_to_skopt_space
+
+    decls = case["decls"]
+    toks = Tokens()
+    m = model()
+    res = dict(ok=True, kind="oracle", clause="", nontrivial=True, sig={}, desc=["surrogate=%s" % case["surrogate"], "normalize=%s" % bool(case.get("normalize"))])
+    p, accepted, errors, bad = declare(decls, toks)
+    if len(accepted) != len(decls):
+        return dict(res, ok=False, **bad) if bad else dict(res, ok=False, kind="corr", clause="sampling_case_declaration_rejected", detail=errors)
+    sp = convert_to_skopt_space(p.space, surrogate_model=case["surrogate"])
+    if case.get("normalize"):
+        sp.set_transformer("normalize")
+    by_name = dict(decls)
+    later = None
+    for name, dm in zip(p.hyperparameter_names, sp.dimensions):
+        spec = m.call(F_SPEC, enc_decl(by_name[name], toks))[0]
+        ends = {}
+        for mode in ("min", "max"):
+            st = make_stub(mode)
+            r = dm.rvs(n_samples=case.get("k", 3), random_state=st)
+            vals = [canon(v) for v in (list(r) if isinstance(r, (list, tuple, np.ndarray)) else [r])]
+            if not st.calls:
+                return dict(res, ok=False, kind="corr", clause="extreme_stub_not_used", detail=dict(name=name))
+            if any(not _same(v, vals[0]) for v in vals):
+                return dict(res, ok=False, kind="corr", clause="extreme_draws_differ", detail=dict(name=name, values=[repr(v) for v in vals]))
+            ends[mode] = vals[0]
+        res["desc"].append("dim=%s/%s" % (spec_desc(spec), dm.transform_))
+        code = m.call(F_OKSUPPORT, [spec, [enc_atom(ends["min"], toks, create=False), enc_atom(ends["max"], toks, create=False)]])
+        if code != 0:
+            cl = "extreme:" + SUPPORT_CLAUSE.get(code, str(code))
+            return dict(res, ok=False, clause=cl, sig=dict(clause=cl, dim=spec_desc(spec), transform=str(dm.transform_)),
+                        detail=dict(name=name, declared=by_name[name], at_u0=repr(ends["min"]), at_u1=repr(ends["max"])))
+        # correspondence with the model's quantile maps at the two ends: q(0) = lo exactly, integers reach hi exactly, first / last category
+        if spec[0] == 0:
+            want = (spec[1], spec[2])
+        elif spec[0] == 1:
+            want = (spec[1][0] / spec[1][1], None)
+        else:
+            rev = {v: k for k, v in toks.t.items()}
+            want = (dec_atom(spec[1][0], rev), dec_atom(spec[1][-1], rev))
+        if spec[0] == 1 and spec[3]:
+            want = (None, None)  # 10 ** log10(lo) is lo up to rounding (oracle pw / lg): the band of the oracle is the statement
+        if (want[0] is not None and not _same(ends["min"], want[0])) or (want[1] is not None and not _same(ends["max"], want[1])):
+            later = later or dict(kind="corr", clause="extreme_quantile_value", detail=dict(name=name, declared=by_name[name], want=[repr(w) for w in want], got=[repr(ends["min"]), repr(ends["max"])]))
+    if later or bad:
+        return dict(res, ok=False, **(later or bad))
+    return res
+
+
+def gen_extremes(count):
+    def gen(rng, tier):
+        for i in range(count * (2 if tier == "search" else 1)):
+            yield dict(decls=sampling_decls(rng, "all" if i % 4 == 0 else "some"), surrogate=["RF", "DUMMY", "GP", None][i % 4], normalize=i % 2 == 1, k=[3, 1, 50][i % 3])
     return gen
 
 
@@ -804,7 +1101,25 @@ def gen_conversion(count):
         for i in range(k):
             n = rng.choice([1, 1, 2, 3, 4, 5, 7]) if tier != "search" else rng.choice([1, 1, 2])
             names = rng.sample(NAME_POOL, n)
-            yield dict(decls=[[nm, gen_decl(rng)] for nm in names], surrogate=SURROGATES[i % len(SURROGATES)])
+            case = dict(decls=[[nm, gen_decl(rng)] for nm in names], surrogate=SURROGATES[i % len(SURROGATES)])
+            if i % 3 == 1 and n >= 2:  # conditions added after the declarations; the child often sorts BEFORE its parent
+                pairs = []
+                for _ in range(rng.choice([1, 1, 2])):
+                    c, pa = rng.sample(names, 2)
+                    if rng.random() < 0.6 and c > pa:
+                        c, pa = pa, c
+                    pairs.append([c, pa])
+                case["conditions"] = pairs
+                case["conditions_plural"] = rng.random() < 0.3
+            if i % 4 == 2:
+                case["entry"] = rng.choice(["config_space", "add_list"])
+            if i % 5 == 3:
+                case["again"] = [rng.choice(SURROGATES), rng.choice(SURROGATES)]
+            if i % 5 == 4:
+                case["extra"] = [rng.choice(["AAA", "mm_extra", "zzzz"]), rng.choice([dict(k="tuple", v=[0, 9]), dict(k="list", v=["u", "v"]), dict(k="tuple", v=[0.5, 2.0, "log-uniform"])])]
+            if i % 7 == 5:
+                case["mutate"] = True
+            yield case
     return gen
 
 
@@ -838,6 +1153,17 @@ def sampling_decls(rng, variant):
         [["obj_int", dict(k="obj", o=dict(cls="int", lo=2, hi=rng.choice([5, 9, 40]), log=False))], 0],
         [["obj_ord_s", dict(k="obj", o=dict(cls="ord", items=["low", "mid", "high"]))], 0],
         [["obj_flog", dict(k="obj", o=dict(cls="float", lo=0.01, hi=10.0, log=True))], 0],
+        # falsy values in legal places (0, 0.0, False, "" as bound / choice / constant - not first in the list)
+        [["a_zero_cross", dict(k="tuple", v=[-rng.choice([1, 2, 3]), rng.choice([1, 2, 4])])], 0],
+        [["b_bool", dict(k="list", v=rng.choice([[True, False], [False, True]]))], 0],
+        [["c_empty_str", dict(k="list", v=["a", "", "b"])], 0],
+        [["d_ord_zero", dict(k="list", v=rng.choice([[2, 1, 0], [1.5, 0.0, 3], [-1, 0, 1]]))], 0],
+        [["e_const_falsy", dict(k="scalar", v=rng.choice([0, "", False, 0.0]))], 0],
+        # numeric edge values: the int32 boundary, 2^40, a relative width of 1e-6, eighteen decades, negative ranges
+        [["f_int32_edge", dict(k="tuple", v=[2 ** 31 - 3, 2 ** 31 + rng.choice([1, 3])])], 0],
+        [["g_huge", dict(k="tuple", v=rng.choice([[0, 2 ** 40], [-2 ** 40, -2 ** 40 + 5], [1, 2 ** 40, "log-uniform"]]))], 0],
+        [["h_tiny_width", dict(k="tuple", v=rng.choice([[1.0, 1.000001], [-1e6, -1e5], [0.0, 1e6]]))], 0],
+        [["i_wide_log", dict(k="tuple", v=[1e-9, 1e9, "log-uniform"])], 0],
     ]
     decls = [b[0] for b in base]
     # fix i_small so that lo < hi
@@ -851,17 +1177,24 @@ def sampling_decls(rng, variant):
         chosen = rng.sample(decls, rng.randint(2, 6))
     if not any(nm in ("r_uni", "r_log", "obj_flog") for nm, _ in chosen):
         chosen.append(decls[4])
+    if variant == "some" and not any(nm in ("cat", "ord", "obj_ord_s", "b_bool", "d_ord_zero") for nm, _ in chosen) and rng.random() < 0.7:
+        chosen.append(decls[rng.choice([6, 8, 12])])
     rng.shuffle(chosen)
     return [[nm, d] for nm, d in chosen]
+
+
+PARENTS = ("cat", "ord", "obj_ord_s", "b_bool", "d_ord_zero", "c_empty_str")
+REALS = ("r_uni", "r_log", "obj_flog")
 
 
 def gen_sampling(paths, per_path, n_draws):
     def gen(rng, tier):
         k = per_path * (2 if tier == "search" else 1)
         for path in paths:
-            surs = {"space_rvs": ["RF", "DUMMY", None], "space_rvs_cs": ["RF", "DUMMY"], "cbo_ask": ["RF", "ET", "DUMMY", "GP", "TB"], "random_search": [None]}[path]
+            surs = {"space_rvs": ["RF", "DUMMY", None], "space_rvs_cs": ["RF", "DUMMY"], "cbo_ask": ["RF", "ET", "DUMMY", "GP", "TB"], "random_search": [None],
+                    "dim_rvs": ["RF", "DUMMY"]}[path]
             for i in range(k):
-                decls = sampling_decls(rng, "all" if i % 3 == 0 else "some")
+                decls = sampling_decls(rng, "all" if i % 6 == 0 and not (path == "cbo_ask" and i % 5 == 2) else "some")
                 case = dict(decls=decls, surrogate=surs[i % len(surs)], path=path, seed=rng.randint(0, 2 ** 31 - 1), n=n_draws)
                 if path == "cbo_ask":
                     case["filter_duplicated"] = i % 2 == 1
@@ -872,17 +1205,44 @@ def gen_sampling(paths, per_path, n_draws):
                     case["one_by_one"] = i % 4 == 3
                 if path == "space_rvs":
                     case["rs_object"] = i % 2 == 1
-                if path in ("space_rvs_cs", "random_search") and (path == "space_rvs_cs" or i % 2 == 0):
+                    if i % 4 == 1:
+                        case["n_jobs"] = 2
+                if path == "dim_rvs":
+                    case["chunks"] = True
+                    case["normalize"] = i % 2 == 1
+                # one object, many calls of different sizes; the caller edits what it got back; pickling; other entry points
+                if i % 3 == 1 and not case.get("one_by_one"):
+                    case["chunks"] = True
+                if path in ("space_rvs", "space_rvs_cs", "dim_rvs") and i % 6 == 4:
+                    case["chunks"] = "ones"      # n calls with n_samples = 1 (Space.rvs special-cases it on the ConfigSpace path)
+                if i % 4 in (1, 2):
+                    case["mutate_returned"] = True
+                if i % 5 == 0:
+                    case["pickle"] = True
+                if i % 4 == 3:
+                    case["entry"] = "config_space" if i % 8 == 3 else "add_list"
+                structured = path == "space_rvs_cs" or (path in ("random_search", "cbo_ask") and i % 2 == 0)
+                if structured:
                     names = [nm for nm, _ in decls]
-                    reals = [nm for nm in names if nm in ("r_uni", "r_log", "obj_flog")]
-                    parents = [(nm, d) for nm, d in decls if nm in ("cat", "ord", "obj_ord_s")]
-                    if parents and i % 2 == 0:
+                    reals = [nm for nm in names if nm in REALS]
+                    parents = [(nm, d) for nm, d in decls if nm in PARENTS]
+                    rng.shuffle(parents)
+                    if parents and i % 4 != 3:
                         pn, pd = parents[0]
                         items = pd["v"] if pd["k"] == "list" else pd["o"]["items"]
-                        child = next(nm for nm in names if nm != pn)
-                        case["conditions"] = [[child, pn, items[0]]]
-                        case["n"] = n_draws * len(items)
-                    else:
+                        others = [nm for nm in names if nm != pn and not (path == "cbo_ask" and case.get("filter_duplicated") and nm in reals[:1])]
+                        before = [nm for nm in others if nm < pn]      # a child that sorts before its parent makes ConfigSpace re-order
+                        child = rng.choice(before) if before and rng.random() < 0.7 else rng.choice(others)
+                        case["conditions"] = [[child, pn, items[rng.randrange(len(items))]]]
+                        if len(parents) > 1 and i % 3 == 0:
+                            pn2, pd2 = parents[1]
+                            items2 = pd2["v"] if pd2["k"] == "list" else pd2["o"]["items"]
+                            others2 = [nm for nm in others if nm not in (child, pn2)]
+                            if others2:
+                                case["conditions"].append([rng.choice(others2), pn2, items2[0]])
+                        case["conditions_plural"] = i % 6 == 0
+                        case["n"] = n_draws * 2
+                    elif reals:
                         rn = reals[0]
                         d = dict(decls)[rn]
                         lo, hi = (d["v"][0], d["v"][1]) if d["k"] == "tuple" else (d["o"]["lo"], d["o"]["hi"])
@@ -906,8 +1266,9 @@ def streams(tier):
     n = 16000 if th else 4000
     return [
         Stream("conversion", gen_conversion(30000 if th else 2500), check_conversion, shrink_conversion, timeout=60),
+        Stream("extreme_quantiles", gen_extremes(400 if th else 48), check_extremes, shrink_sampling, timeout=60),
         Stream("normalized_quantile", gen_quantile(3000 if th else 300), check_quantile, None, timeout=30),
-        Stream("space_rvs", gen_sampling(["space_rvs", "space_rvs_cs"], 90 if th else 15, n), check_sampling, shrink_sampling, timeout=300),
-        Stream("optimizer_ask", gen_sampling(["cbo_ask"], 160 if th else 35, n), check_sampling, shrink_sampling, timeout=300),
-        Stream("random_search", gen_sampling(["random_search"], 70 if th else 14, n), check_sampling, shrink_sampling, timeout=300),
+        Stream("space_rvs", gen_sampling(["space_rvs", "space_rvs_cs", "dim_rvs"], 50 if th else 11, n), check_sampling, shrink_sampling, timeout=300),
+        Stream("optimizer_ask", gen_sampling(["cbo_ask"], 80 if th else 25, n), check_sampling, shrink_sampling, timeout=300),
+        Stream("random_search", gen_sampling(["random_search"], 60 if th else 12, n), check_sampling, shrink_sampling, timeout=300),
     ]
